@@ -803,8 +803,8 @@ def r3_envelope(ctx):
                     # provably not the running maximum: the old envelope or the current spectrum is not used, or a minimum is taken;
                     # any other construction is not understood (analysis error, not a violation)
                     sub = _subterms(v)
-                    wrong = old not in sub or cur not in sub or (v[0] == "call" and v[1] in ("np.fmin", "np.minimum", "np.fmax", "np.maximum",
-                                                                                              "min", "max", "np.nanmin", "np.nanmax"))
+                    wrong = old not in sub or cur not in sub or (v[0] == "call" and not v[3] and v[1] in ("np.fmin", "np.minimum", "np.fmax", "np.maximum",
+                                                                                                           "min", "max", "np.nanmin", "np.nanmax"))
                     ok = False if wrong else None
                 A.req(k_later, ok, e.node, show(v))
             else:
